@@ -19,6 +19,7 @@ CLAIMED = {}
 
 # id -> reason
 NOT_APPLICABLE = {}
+ADDENDA = {}
 
 ALL = ["C%02d" % i for i in range(1, 21)]
 
@@ -27,6 +28,8 @@ def load_tables():
     g = {}
     with open(os.path.join(HERE, "tools", "claims.py")) as f:
         exec(f.read(), g)
+    global ADDENDA
+    ADDENDA = g.get("ADDENDA", {})
     return g["CLAIMED"], g["NOT_APPLICABLE"]
 
 
@@ -44,7 +47,7 @@ def main():
             "evidence_file": "/verif/evidence/%s.json" % pid,
             "replay_cmd_template": "/venv/bin/python check %s --replay {path}" % pid,
             "engine": c.get("engine", "sa"),
-            "level_claimed": {"category": c["level"], "text": c["text"], "design_ref": c.get("design", "DESIGN.md §4")},
+            "level_claimed": {"category": c["level"], "text": c["text"] + ADDENDA.get(pid, ""), "design_ref": c.get("design", "DESIGN.md §4")},
             "level_note": c.get("note", TRUST),
             "technique": c["technique"],
         })
